@@ -214,6 +214,47 @@ static void interrupt_prog()
     pmc_outcome("early=%d phase=%d", early, s.interrupted_phase);
 }
 
+// an interruption request must end only its target: a request that arrives after the target's last
+// interruption point must not hit the unrelated thread that later reuses the target's thread object
+static void interrupt_not_inherited_prog()
+{
+    static St s;
+    s = St{};
+    g = &s;
+    int yields_before_interrupt = pmc_choose(3, 0);
+    int successors = 1 + pmc_choose(2, 0);
+    static int completed, born_requested;
+    completed = born_requested = 0;
+    rt::config c;
+    c.workers = 1 + pmc_choose(2, 0);
+    c.extra = {"pika.thread_queue.max_terminated_threads=0"};    // recycle terminated thread objects at once
+    rt::start(c);
+    rt::spawn([&, yields_before_interrupt, successors] {
+        {
+            pika::thread a([] { pika::this_thread::suspend(pika::threads::detail::thread_schedule_state::pending, "C13 target"); });
+            for (int i = 0; i < yields_before_interrupt; ++i) pika::this_thread::yield();
+            a.interrupt();
+            a.join();
+        }
+        pika::this_thread::yield();
+        for (int v = 0; v < successors; ++v)
+        {
+            pika::thread b([&] {
+                if (pika::this_thread::interruption_requested()) ++born_requested;
+                pika::this_thread::interruption_point();    // an unrelated thread: must not be interrupted
+                pika::this_thread::suspend(pika::threads::detail::thread_schedule_state::pending, "C13 successor");
+                ++completed;
+            });
+            b.join();
+        }
+        ++g->finished;
+    });
+    rt::stop();
+    PMC_ASSERT(s.finished == 1, "task-lost", "owner did not finish");
+    PMC_ASSERT(completed == successors && born_requested == 0, "interrupt-affects-others", "an interruption request aimed at a finished thread ended %d of %d unrelated later threads (%d started with the request pending)", successors - completed, successors, born_requested);
+    pmc_outcome("ybi=%d n=%d", yields_before_interrupt, successors);
+}
+
 // An interruption that is delivered inside pika::this_thread::yield() (declared noexcept, but it
 // suspends through an interruption point) terminates the whole process instead of ending the thread.
 static void interrupt_in_yield_prog()
@@ -251,6 +292,7 @@ int main(int argc, char** argv)
         {"detach_selfjoin", misc_prog, 1, 2, 0.1, 0.1, 1, focus, sites, nullptr},
         {"jthread_destructor", jthread_prog, 1, 2, 0.2, 0.15, 1, focus, sites, nullptr},
         {"interrupt", interrupt_prog, 1, 2, 0.2, 0.2, 1, focus, sites, nullptr},
+        {"interrupt_not_inherited", interrupt_not_inherited_prog, 1, 2, 0.15, 0.15, 1, focus, sites, nullptr},
         {"interrupt_in_noexcept_yield", interrupt_in_yield_prog, 0, 1, 0.02, 0.02, 0, focus, sites, nullptr},
     };
     static const char* assumptions[] = {"sequentially consistent interleavings only", "2 worker threads"};
